@@ -259,7 +259,8 @@ done:
     hfdprintf(server_fd, "%s%s", CP_QUIT, CP_EOL);
     _expect(server_fd, CP_RSP_QUIT);
 
-    exit(res);
+    /* exit status is res & 0xff: a failure code must not turn into 0 */
+    exit((res != 0 && (res & 0xff) == 0) ? 1 : res);
 }
 
 /* Display powerman usage and exit.
